@@ -142,9 +142,29 @@ def work(job):
     return res
 
 
+EXAMPLE_SRC = ('out str[3] s;\nhook full;\nparser {\n  try { s += /a+/; ";"; } catch (outofspace) { full(); wait ";"; }\n  "!";\n}\n')
+
+
+def example_still_current():
+    """lean/NmfuProps/Examples.lean transcribes the machine nmfu compiles from EXAMPLE_SRC (the
+    non-vacuity examples of the runtime theorems): compare a fresh export with the transcription."""
+    from nmfu_api import compile_program
+    from export import export_machine
+    o = compile_program(EXAMPLE_SRC, ["-O1", "-feof-support"])
+    if not o.ok:
+        return False, "example program no longer accepted: " + o.kind
+    want = open(os.path.join(os.path.dirname(os.path.abspath(__file__)), "example_machine.txt")).read().split()
+    got = export_machine(o.dctx).split()
+    return got == want, "" if got == want else "fresh export differs from the transcribed machine"
+
+
 def main():
     ck = Check("C06", "proof")
     ck.lean_obligations("NmfuProps.C06", THEOREMS)
+    cur, why = example_still_current()
+    ck.coverage["example_machine_current"] = cur
+    if not cur:
+        ck.notes.append({"stale_example": "NmfuProps/Examples.lean: " + why + " (the examples still hold of the transcribed machine, but it is no longer what nmfu produces)"})
     n_gen = 40 if ck.tier == "quick" else 600
     optsets = OPTSETS[:4] if ck.tier == "quick" else OPTSETS
     progs = list(population.population(ck.seed, n_gen))
